@@ -317,6 +317,13 @@ static Boolean LayoutNibble(tStrComp const* pExpr, struct sLayoutCtx* pCtx) {
     Boolean    Result = False;
     TempResult t;
 
+    /* no layout for this segment's granularity (e.g. 32-bit code words): only reservations are possible */
+
+    if (!pCtx->Put4I) {
+        WrStrErrorPos(ErrNum_NotInThisSegment, pExpr);
+        return False;
+    }
+
     as_tempres_ini(&t);
     EvalStrExpression(pExpr, &t);
     switch (t.Typ) {
@@ -422,6 +429,13 @@ static Boolean Replicate8_To_16(
 static Boolean LayoutByte(tStrComp const* pExpr, struct sLayoutCtx* pCtx) {
     Boolean    Result = False;
     TempResult t;
+
+    /* no layout for this segment's granularity (e.g. 32-bit code words): only reservations are possible */
+
+    if (!pCtx->Put8I) {
+        WrStrErrorPos(ErrNum_NotInThisSegment, pExpr);
+        return False;
+    }
 
     as_tempres_ini(&t);
     EvalStrExpression(pExpr, &t);
@@ -942,6 +956,13 @@ static Boolean LayoutTenBytes(tStrComp const* pExpr, struct sLayoutCtx* pCtx) {
     TempResult erg;
     Word       Cnt;
 
+    /* no layout for this segment's granularity (e.g. 32-bit code words): only reservations are possible */
+
+    if (!pCtx->Put80F) {
+        WrStrErrorPos(ErrNum_NotInThisSegment, pExpr);
+        return False;
+    }
+
     as_tempres_ini(&erg);
     EvalStrExpression(pExpr, &erg);
     Result = False;
@@ -1302,10 +1323,6 @@ void DecodeIntelDB(Word Flags) {
         LayoutCtx.LoHiMap   = (Flags & eIntPseudoFlag_BigEndian) ? 1 : 0;
         LayoutCtx.Replicate = Replicate8_To_16;
         break;
-    default:
-        /* no byte layout for this segment's granularity (e.g. 32-bit code words) */
-        WrError(ErrNum_NotInThisSegment);
-        return;
     }
     if (*LabPart.str.p_str) {
         SetSymbolOrStructElemSize(&LabPart, eSymbolSize8Bit);
